@@ -420,4 +420,5 @@ def check(ctx):
     from .engine import import_rules
     # the statistics read record fields: they must read them where the layout puts them
     import_rules(ctx, "c05", {"field-position"})
-    import_rules(ctx, "c06", {"free-slot-field-position", "class-slot"})
+    # ... and the slot walk steps by the size stored in every slot, free ones included
+    import_rules(ctx, "c06", {"free-slot-field-position", "class-slot", "push-pop-inverse"})
